@@ -1,16 +1,21 @@
 #!/bin/bash
-# usage: tools/mutate.sh <patch.diff> <property>... ; applies the patch to /repo, runs the quick checks, reverts.
-# Prints KILLED/SURVIVED per property. Never leaves /repo modified.
+# usage: tools/mutate.sh <patch.diff> <property>...
+# Applies the patch to a scratch worktree of /repo's HEAD (outside /repo and /verif), runs the quick checks against
+# that copy (VERIF_REPO) and removes it. Prints KILLED/SURVIVED per property. /repo itself is never modified, no
+# evidence is written.
 set -u
 patch="$(readlink -f "$1")"; shift
-cd /repo || exit 2
-if [ -n "$(git status --porcelain)" ]; then echo "repo not clean"; exit 2; fi
+wt=$(mktemp -d /tmp/verif-mut-XXXXXX)
+rmdir "$wt"
+git -C /repo worktree add -q --detach "$wt" HEAD || exit 2
+trap 'git -C /repo worktree remove --force "$wt" >/dev/null 2>&1; rm -rf "$wt" "/verif/.work/alt-$(printf %s "$wt" | sha1sum | cut -c1-10)"; git -C /repo worktree prune' EXIT
+cd "$wt" || exit 2
 if ! git apply "$patch"; then echo "patch does not apply: $patch"; exit 2; fi
-trap 'git -C /repo checkout -q -- . ' EXIT
 export GOFLAGS=-mod=mod GOPROXY=off GOSUMDB=off GOTOOLCHAIN=local
-if ! go build ./... 2>/tmp/mutate-build.log; then echo "MUTANT DOES NOT COMPILE"; cat /tmp/mutate-build.log | head; exit 2; fi
+if ! go build ./... 2>"$wt.build.log"; then echo "MUTANT DOES NOT COMPILE"; head "$wt.build.log"; rm -f "$wt.build.log"; exit 2; fi
+rm -f "$wt.build.log"
 for p in "$@"; do
-  out=$(cd /verif && VERIF_NO_EVIDENCE=1 VERIF_REPLAY_DIR=/tmp/verif-mutant-replays ./check "$p" quick 2>&1)
+  out=$(cd /verif && VERIF_REPO="$wt" VERIF_NO_EVIDENCE=1 VERIF_REPLAY_DIR=/tmp/verif-mutant-replays ./check "$p" quick 2>&1)
   rc=$?
   if [ $rc -eq 1 ]; then echo "KILLED   $p by $(basename $patch): $(echo "$out" | grep -m1 'check=' | cut -c1-200)";
   elif [ $rc -eq 0 ]; then echo "SURVIVED $p vs $(basename $patch)";
